@@ -6,6 +6,8 @@ use std::panic::{catch_unwind, AssertUnwindSafe};
 use std::sync::atomic::Ordering;
 
 use fuse_backend_rs::file_buf::{FileVolatileBuf, FileVolatileSlice};
+use fuse_backend_rs::file_traits::FileReadWriteVolatile;
+use std::os::unix::io::AsRawFd;
 use serde_json::{json, Map, Value};
 use vharness::util::{Rng, Trace};
 use vm_memory::Bytes;
@@ -19,6 +21,39 @@ enum Obj {
     S(FileVolatileSlice<'static>),
     B(FileVolatileBuf),
 }
+
+/// A file that implements ONLY the four required primitives of `FileReadWriteVolatile`, each moving at most `cap`
+/// bytes per call: every other method (read_exact[_at]_volatile, write_all[_at]_volatile, the vectored ones) is the
+/// trait's DEFAULT implementation of src/common/file_traits.rs, which is what the `ft.*` operations exercise.
+struct Prim {
+    fd: i32,
+    cap: usize,
+}
+fn cv(r: isize) -> std::io::Result<usize> {
+    if r >= 0 {
+        Ok(r as usize)
+    } else {
+        Err(std::io::Error::last_os_error())
+    }
+}
+impl FileReadWriteVolatile for Prim {
+    fn read_volatile(&mut self, s: FileVolatileSlice) -> std::io::Result<usize> {
+        cv(unsafe { libc::read(self.fd, s.as_ptr() as *mut libc::c_void, s.len().min(self.cap)) })
+    }
+    fn write_volatile(&mut self, s: FileVolatileSlice) -> std::io::Result<usize> {
+        cv(unsafe { libc::write(self.fd, s.as_ptr() as *const libc::c_void, s.len().min(self.cap)) })
+    }
+    fn read_at_volatile(&mut self, s: FileVolatileSlice, off: u64) -> std::io::Result<usize> {
+        cv(unsafe { libc::pread(self.fd, s.as_ptr() as *mut libc::c_void, s.len().min(self.cap), off as i64) })
+    }
+    fn write_at_volatile(&mut self, s: FileVolatileSlice, off: u64) -> std::io::Result<usize> {
+        cv(unsafe { libc::pwrite(self.fd, s.as_ptr() as *const libc::c_void, s.len().min(self.cap), off as i64) })
+    }
+}
+
+const SRC_SIZE: usize = 150;
+const SRC_SALT: usize = 77;
+const SINK_SIZE: usize = 400;
 
 struct Ctx {
     backing: Vec<u8>,
@@ -73,10 +108,11 @@ pub fn run_random(rng: &mut Rng, tr: &mut Trace, seg: u64, steps: usize) -> usiz
 /// deterministic scenario: every container entry point once, in a fixed order, on a 64-byte buffer
 /// (addresses/lengths from a generator with a fixed seed)
 pub fn run_scripted(tr: &mut Trace, seg: u64) -> usize {
-    const SCRIPT: [&str; 18] = [
+    const SCRIPT: [&str; 24] = [
         "fvs.write", "fvs.read", "fvs.write_slice", "fvs.read_slice", "fvs.store", "fvs.load", "fvs.offset", "fvs.view",
         "fvs.read_volatile_from", "fvs.read_exact_volatile_from", "fvs.write_volatile_to", "fvs.write_all_volatile_to",
         "fvs.borrow_as_buf", "buf.set_size", "buf.fill", "buf.peek", "buf.new", "buf.peek",
+        "ft.read_exact_at", "ft.write_all_at", "ft.read_exact", "ft.write_all", "ft.read_exact_at", "ft.write_all_at",
     ];
     let mut rng = Rng::new(20260923);
     run(&mut rng, tr, seg, SCRIPT.len(), Some(&SCRIPT))
@@ -94,7 +130,9 @@ fn run(rng: &mut Rng, tr: &mut Trace, seg: u64, steps: usize, script: Option<&[&
     };
     cx.objs.push(Obj::S(root));
     let w0 = cx.win(0);
-    tr.emit(&json!({"e":"Reset","seg":seg,"tr":"fvs","P":crate::PAGE,"segs":[[FBASE, len, 1]],"win":w0,"origin":format!("{}:{}", if script.is_some() { "targeted" } else { "random" }, seg)}));
+    let fsrc = MFile::new("ftsrc", (0..SRC_SIZE).map(|i| ((i + SRC_SALT) % M as usize) as u8).collect());
+    let mut fsink = MFile::new("ftsink", vec![FPOISON; SINK_SIZE]);
+    tr.emit(&json!({"e":"Reset","seg":seg,"tr":"fvs","P":crate::PAGE,"segs":[[FBASE, len, 1]],"src":[SRC_SIZE, SRC_SALT],"sink":SINK_SIZE,"win":w0,"origin":format!("{}:{}", if script.is_some() { "targeted" } else { "random" }, seg)}));
     for i in 1..=steps {
         let forced: Option<&'static str> = script.map(|sc| sc[i - 1]);
         let oi = match forced {
@@ -116,7 +154,8 @@ fn run(rng: &mut Rng, tr: &mut Trace, seg: u64, steps: usize, script: Option<&[&
             *rng.pick(&[
                 "fvs.write", "fvs.read", "fvs.write_slice", "fvs.read_slice", "fvs.read_slice", "fvs.store", "fvs.load",
                 "fvs.offset", "fvs.view", "fvs.read_volatile_from", "fvs.read_exact_volatile_from", "fvs.write_volatile_to",
-                "fvs.write_all_volatile_to", "fvs.borrow_as_buf", "buf.new",
+                "fvs.write_all_volatile_to", "fvs.borrow_as_buf", "buf.new", "ft.read_exact_at", "ft.read_exact_at",
+                "ft.write_all_at", "ft.write_all_at", "ft.read_exact", "ft.write_all",
             ])
         } else {
             *rng.pick(&["buf.set_size", "buf.fill", "buf.peek"])
@@ -142,6 +181,8 @@ fn run(rng: &mut Rng, tr: &mut Trace, seg: u64, steps: usize, script: Option<&[&
         let mut out: Option<Vec<u8>> = None;
         let mut ret: Option<u64> = None;
         let mut newobj: Option<Obj> = None;
+        let mut ft_a: Option<usize> = None;
+        let mut ft_sink = false;
         let (res, err): (&str, Option<String>) = match (op, &mut cx.objs[oi]) {
             ("fvs.write", Obj::S(s)) => {
                 let d = ramp_bytes(v, n);
@@ -279,6 +320,52 @@ fn run(rng: &mut Rng, tr: &mut Trace, seg: u64, steps: usize, script: Option<&[&
                 ret = Some(k as u64);
                 ("ok", None)
             }
+            (f, Obj::S(s)) if f.starts_with("ft.") => {
+                // exact transfers between a window of this slice and a file, through the DEFAULT trait methods over a
+                // backend that moves 1..3 bytes per call: [a, a + n) of the slice <-> [x, x + n) of the file
+                let a2 = a.min(olen);
+                n = n.min(olen - a2).min(12);
+                if script.is_some() {
+                    n = n.max(7.min(olen - a2));
+                }
+                let cap = rng.range(1, 3) as usize;
+                let sub = s.offset(a2).and_then(|t| unsafe { Ok(FileVolatileSlice::from_raw_ptr(t.as_ptr(), n)) }).unwrap();
+                let reading = f.starts_with("ft.read");
+                let x = match rng.below(4) {
+                    0 => 0,
+                    1 if reading => (SRC_SIZE as u64).saturating_sub(rng.below(10)),
+                    _ => rng.below(if reading { SRC_SIZE as u64 } else { (SINK_SIZE - 20) as u64 }),
+                };
+                if !reading {
+                    // fresh poison under the sink so that every byte written shows up in the file diff
+                    let poison = vec![FPOISON; SINK_SIZE];
+                    unsafe { libc::pwrite(fsink.f.as_raw_fd(), poison.as_ptr() as *const libc::c_void, SINK_SIZE, 0) };
+                    fsink.shadow = poison;
+                }
+                let file = if reading { &fsrc } else { &fsink };
+                let mut prim = Prim { fd: file.f.as_raw_fd(), cap };
+                let cursor = f == "ft.read_exact" || f == "ft.write_all";
+                if cursor {
+                    file.set_pos(x);
+                }
+                let q = catch_unwind(AssertUnwindSafe(|| match f {
+                    "ft.read_exact_at" => prim.read_exact_at_volatile(sub, x),
+                    "ft.write_all_at" => prim.write_all_at_volatile(sub, x),
+                    "ft.read_exact" => prim.read_exact_volatile(sub),
+                    _ => prim.write_all_volatile(sub),
+                }));
+                let (r, _, e) = res3(q);
+                ev.insert("x".into(), json!(x));
+                ev.insert("cap".into(), json!(cap));
+                if cursor {
+                    ev.insert("fpos".into(), json!(file.pos()));
+                }
+                ft_a = Some(a2);
+                if !reading {
+                    ft_sink = true;
+                }
+                (r, e)
+            }
             ("buf.peek", Obj::B(b)) => {
                 out = Some(b.io_slice().to_vec());
                 ("ok", None)
@@ -290,7 +377,12 @@ fn run(rng: &mut Rng, tr: &mut Trace, seg: u64, steps: usize, script: Option<&[&
         ev.insert("i".into(), json!(i));
         ev.insert("o".into(), json!(oi + 1));
         ev.insert("op".into(), json!(op));
-        ev.insert("a".into(), json!(a));
+        ev.insert("a".into(), json!(ft_a.unwrap_or(a)));
+        if ft_a.is_some() {
+            let (d, _) = fsink.diff();
+            let _ = ft_sink;
+            ev.insert("fdiff".into(), d);
+        }
         ev.insert("n".into(), json!(n));
         ev.insert("v".into(), json!(v));
         if width > 0 {
